@@ -26,7 +26,11 @@ type Dgram struct {
 // that delay (empty = drop). Hold=true parks the datagram until Release(ID).
 type Fate struct {
 	Delays []time.Duration
-	Hold   bool
+	// Ordered: the copies are delivered in the order in which the datagrams of this (source, destination) flow were written, also
+	// when several become due at the same (virtual) instant -- a FIFO path. Without it datagrams due at one instant may overtake
+	// each other (their timers fire concurrently), like on a real network.
+	Ordered bool
+	Hold    bool
 	Mutate func([]byte) []byte // applied to each delivered copy (nil = none)
 }
 
@@ -37,6 +41,8 @@ type Policy func(d *Dgram) Fate
 func Deliver(d *Dgram) Fate { return Fate{Delays: []time.Duration{0}} }
 
 type Hub struct {
+	omu sync.Mutex
+	oq  map[string][]orderedItem // ordered flows
 	mu     sync.Mutex
 	conns  map[string]*Conn
 	policy Policy
@@ -174,6 +180,12 @@ func (h *Hub) write(src *Conn, dst net.Addr, p []byte) {
 	if f.Hold {
 		return
 	}
+	if f.Ordered {
+		for _, delay := range f.Delays {
+			h.enqueueOrdered(d.Src, d.Dst, d.Data, delay)
+		}
+		return
+	}
 	for _, delay := range f.Delays {
 		data := d.Data
 		if f.Mutate != nil {
@@ -185,6 +197,39 @@ func (h *Hub) write(src *Conn, dst net.Addr, p []byte) {
 			src, dstS := d.Src, d.Dst
 			time.AfterFunc(delay, func() { h.deliver(src, dstS, data) })
 		}
+	}
+}
+
+type orderedItem struct {
+	due  time.Time
+	data []byte
+}
+
+// enqueueOrdered appends to the flow's FIFO; whichever timer fires first delivers every queued datagram that is due, in order.
+func (h *Hub) enqueueOrdered(src, dst string, data []byte, delay time.Duration) {
+	key := src + ">" + dst
+	h.omu.Lock()
+	if h.oq == nil {
+		h.oq = map[string][]orderedItem{}
+	}
+	h.oq[key] = append(h.oq[key], orderedItem{due: time.Now().Add(delay), data: data})
+	h.omu.Unlock()
+	flush := func() {
+		h.omu.Lock()
+		defer h.omu.Unlock() // deliveries of one hub's ordered flows are serialised: order within a flow is the queue's order
+		q := h.oq[key]
+		now := time.Now()
+		i := 0
+		for i < len(q) && !q[i].due.After(now) {
+			h.deliver(src, dst, q[i].data)
+			i++
+		}
+		h.oq[key] = q[i:]
+	}
+	if delay <= 0 {
+		flush()
+	} else {
+		time.AfterFunc(delay, flush)
 	}
 }
 
